@@ -108,6 +108,25 @@ def call_kwargs(name, two_d=False, n=None, small=True):
     return kw
 
 
+def layout_variant(a, kind):
+    """the same numbers in another memory layout: 'C' contiguous, 'F' Fortran-ordered, 'T' a transposed view, 'strided' a view into
+    a larger array with gaps between rows and columns (1-D: every second element of a longer array)"""
+    a = np.asarray(a)
+    if kind == 'C' or a.ndim == 0:
+        return np.ascontiguousarray(a)
+    if kind == 'F':
+        return np.asfortranarray(a) if a.ndim > 1 else np.ascontiguousarray(a)
+    if kind == 'T':
+        return np.ascontiguousarray(np.swapaxes(a, -1, -2)).swapaxes(-1, -2) if a.ndim > 1 else np.ascontiguousarray(a)
+    big = np.zeros(tuple(2 * s + 1 for s in a.shape), dtype=a.dtype)
+    view = big[tuple(slice(1, None, 2) for _ in a.shape)]
+    view[...] = a
+    return view
+
+
+LAYOUTS = ('C', 'F', 'T', 'strided')
+
+
 def filter_kwargs(reg_entry, kw):
     if reg_entry['var_kw']:
         return dict(kw)
